@@ -275,6 +275,7 @@ def mrg_mvreg(ctx):
     'C03': 'a Put whose write the state already holds (learned inside a merged state) must leave the reads as they are, and a Put '
            'delivered as an op must evict exactly what the merge of the writer\'s state would evict',
     'C06': 'keeping Eq duplicates a re-delivered write; keeping Lt shows a superseded write',
+    'C20': 'a duplicated or superseded value left in vals is residue: replicas with equal knowledge stop being equal',
     'C08': 'a dominating Put must evict what it observed whatever the arrival order',
     'C09': 're-delivering a Put must not duplicate it',
 }, floor=1)
@@ -426,6 +427,7 @@ def mv_live(ctx):
 @rule('MV-IGNORE', {
     'C03': 'a Put is stored by op delivery exactly when the merge of the writer\'s state would keep it',
     'C06': 'a Put is shown iff no applied write has superseded it',
+    'C20': 'a stale Put stored on one replica and not on another with the same knowledge',
     'C08': 'a dominated Put arriving late must be ignored',
     'C09': 'a stale Put must not re-appear',
 }, floor=1)
@@ -855,6 +857,14 @@ def mv_eq(ctx):
     atom_hits = {}
 
     def atom(t):
+        # `self.vals.len() == other.vals.len()`: holds when every value of each side occurs exactly once on the other side (the
+        # only world that assumes it); decides nothing elsewhere
+        if t[0] == 'binop' and t[1] in ('Eq', 'Ne'):
+            l_, r_ = drop_lv(t[2]), drop_lv(t[3])
+            if is_call(l_, 'len') and is_call(r_, 'len') and len(l_[2]) == 1 and len(r_[2]) == 1:
+                pl, pr = param_path(versionless(l_[2][0])), param_path(versionless(r_[2][0]))
+                if pl and pr and {pl[0], pr[0]} == {1, 2} and pl[1] == pr[1] == (vf,):
+                    return 'leneq' if t[1] == 'Eq' else ('not', 'leneq')
         # `count(filter(iter(X.vals), |d| d == outer item))`: how often the outer item occurs on the other side (0, 1, 2 = more)
         x = t
         if is_call(x, 'count') and x[2] and is_call(x[2][0], 'filter'):
@@ -880,7 +890,7 @@ def mv_eq(ctx):
     must_true = None
     for c1 in (0, 1, 2):
         for c2 in (0, 1, 2):
-            rc = Reach(facts, body, Evaluator(facts, bool_atom=atom, assumption={'found1': c1, 'found2': c2}))
+            rc = Reach(facts, body, Evaluator(facts, bool_atom=atom, assumption=dict({'found1': c1, 'found2': c2}, **({'leneq': True} if (c1, c2) == (1, 1) else {}))))
             # the constants the function can return on the surviving paths (the result may travel through locals: `a && b`,
             # a helper's return value)
             vals = set()
@@ -932,18 +942,23 @@ def mv_eq(ctx):
         # .. and `true` is never answered on a path that has not run both scans (a shortcut may answer `false` - different
         # lengths - but never `true`)
         from .loops import loops_of
-        rcu = Reach(facts, body, Evaluator(facts))
-        for lp in loops_of(it):
-            side = 1 if lp.whole_over(1, (vf,)) else 2 if lp.whole_over(2, (vf,)) else None
-            if side is None or not atom_hits.get(side):
-                continue
-            region = rcu._reach(0, {lp.head})
-            for rb in rcu.return_blocks():
-                if rb in region:
-                    vals_ = rcu._values_at(0, rb, 0, region, 0)
-                    if 1 in vals_ or None in vals_:
-                        errs.append('equality can be answered with `true` on a path that never scans the values of side %d' % side)
-                        break
+        empt = emptiness_atom({'e1': (1, (vf,)), 'e2': (2, (vf,))})
+        # a side that is empty needs no scan (`if a.is_empty() && b.is_empty() { return true }`); a side that is not must be scanned
+        for e1, e2 in ((False, False), (True, False), (False, True)):
+            rcu = Reach(facts, body, Evaluator(facts, bool_atom=empt, assumption={'e1': e1, 'e2': e2}))
+            for lp in loops_of(it):
+                side = 1 if lp.whole_over(1, (vf,)) else 2 if lp.whole_over(2, (vf,)) else None
+                if side is None or not atom_hits.get(side) or (e1, e2)[side - 1]:
+                    continue
+                region = rcu._reach(0, {lp.head})
+                for rb in rcu.return_blocks():
+                    if rb in region:
+                        vals_ = rcu._values_at(0, rb, 0, region, 0)
+                        if 1 in vals_ or None in vals_:
+                            errs.append('equality can be answered with `true` on a path that never scans the values of side %d' % side)
+                            break
+                if errs:
+                    break
             if errs:
                 break
     ctx.check(not errs, 'eq', body, 'order-insensitive set equality over both sides', errs[0] if errs else '',
